@@ -2,7 +2,7 @@
 
 #include "rt.h"
 extern const harness_t h_deque, h_mpmc, h_queue, h_ring, h_workq, h_dwcas, h_hazard;
-extern const harness_t h_io;
+extern const harness_t h_io, h_litmus;
 extern const harness_t h_mutex, h_yield, h_sem, h_rwlock, h_barrier, h_spin, h_cond, h_join, h_chan, h_msig, h_sleep, h_mchan;
 static const harness_t* const subs[] = {&h_mutex, &h_yield, &h_sem, &h_rwlock, &h_barrier, &h_spin, &h_cond, &h_join, &h_chan, &h_msig, &h_sleep, &h_mchan, &h_io, 0};
 
@@ -31,4 +31,4 @@ static void mixed_final(void) {
 }
 const harness_t h_mixed = {"mixed", mixed_setup, mixed_do_op, mixed_at_quiescence, mixed_final, 0};
 
-const harness_t* const all_harnesses[] = {&h_mutex, &h_yield, &h_sem, &h_rwlock, &h_barrier, &h_spin, &h_cond, &h_join, &h_chan, &h_msig, &h_sleep, &h_mchan, &h_io, &h_mixed, &h_deque, &h_mpmc, &h_queue, &h_ring, &h_workq, &h_dwcas, &h_hazard, 0};
+const harness_t* const all_harnesses[] = {&h_mutex, &h_yield, &h_sem, &h_rwlock, &h_barrier, &h_spin, &h_cond, &h_join, &h_chan, &h_msig, &h_sleep, &h_mchan, &h_io, &h_mixed, &h_deque, &h_mpmc, &h_queue, &h_ring, &h_workq, &h_dwcas, &h_hazard, &h_litmus, 0};
